@@ -100,6 +100,14 @@ binary(struct expr *expr, enum tokenkind op, struct expr *l, struct expr *r)
 	cast(expr);
 }
 
+static bool
+istrue(struct expr *expr)
+{
+	if (expr->type->prop & PROPFLOAT)
+		return expr->u.constant.f != 0;
+	return expr->u.constant.u != 0;
+}
+
 struct expr *
 eval(struct expr *expr)
 {
@@ -212,13 +220,18 @@ eval(struct expr *expr)
 			}
 			break;
 		case TLOR:
-			if (l->kind != EXPRCONST)
-				break;
-			return l->u.constant.u ? l : r;
 		case TLAND:
 			if (l->kind != EXPRCONST)
 				break;
-			return l->u.constant.u ? r : l;
+			/* the result is 0 or 1; the right operand only matters if the left one does not decide */
+			if (istrue(l) == (expr->op == TLOR)) {
+				expr->kind = EXPRCONST;
+				expr->u.constant.u = expr->op == TLOR;
+			} else if (r->kind == EXPRCONST) {
+				expr->kind = EXPRCONST;
+				expr->u.constant.u = istrue(r);
+			}
+			break;
 		case TDIV:
 		case TMOD:
 			if (l->kind != EXPRCONST || r->kind != EXPRCONST)
